@@ -51,9 +51,12 @@ func runC09(rc *RunCtx, i int) {
 	env, err := newLifecycleEnv(rc, i, r, func(s *gen.EngineSpec) {
 		s.IngestBuf = ingestBuf
 		s.BufRows = trigger
-		s.BufBytes = 1 << 30
+		// The byte limits stay out of reach of the batches (a batch is well under 64 KiB), but
+		// their values and their ratio vary over orders of magnitude: a queue or buffer whose
+		// size is derived from them must not widen the bound.
+		s.BufBytes = core.Pick(r, []int{1 << 30, 1 << 30, 64 << 20, 1 << 40})
 		s.RGRows = 1 << 30
-		s.RGBytes = 1 << 30
+		s.RGBytes = core.Pick(r, []int{1 << 30, 1 << 20, 256 << 10, 1 << 30})
 		s.Part = gen.PartFunc{Name: "none"}
 		s.Partition = "none"
 		if partMode != "none" {
